@@ -3,6 +3,7 @@
 # quick check of its property in a scratch worktree; appends to seeded/results.tsv:
 #   id <TAB> check <TAB> exit <TAB> violations <TAB> seconds <TAB> first violated assertions
 cd /verif
+OUT="${RESULTS:-seeded/results.tsv}"
 ids="$@"
 [ -z "$ids" ] && ids=$(ls seeded | grep '^C[0-9][0-9][a-z]$')
 for id in $ids; do
@@ -12,5 +13,5 @@ for id in $ids; do
   nv=$(echo "$out" | sed -n 's/.* violations=\([0-9]*\).*/\1/p' | head -1)
   secs=$(echo "$out" | sed -n 's/.* secs=\([0-9]*\).*/\1/p' | head -1)
   what=$(echo "$out" | grep 'violated:' | sed 's/^ *violated: //' | cut -c1-160 | tr '\n' ';' | tr '\t' ' ')
-  printf '%s\t%s\t%s\t%s\t%s\t%s\n' "$id" "$c" "$rc" "$nv" "$secs" "$what" >> seeded/results.tsv
+  printf '%s\t%s\t%s\t%s\t%s\t%s\n' "$id" "$c" "$rc" "$nv" "$secs" "$what" >> "$OUT"
 done
